@@ -329,7 +329,6 @@ where
 
         // Monogamy condition: for each node, degree is 0 iff on the interface, else 1.
         // Equivalent to elementwise: degree + interface_count == 1.
-        (in_degrees + in_counts - ones.clone()).zero().len() == ones.len()
-            && (out_degrees + out_counts - ones).zero().len() == self.h.w.len()
+        (in_degrees + in_counts) == ones && (out_degrees + out_counts) == ones
     }
 }
